@@ -44,6 +44,19 @@ def resolve_map_expr(repo, ci, name, depth=0):
 
 
 def run(chk, repo):
+    chk.doc("R29.5", "the process group runs the cycle of SyncGroup on the "
+                     "shared array itself")
+    override_rule(chk, repo, "R29.5", "ebpfcat.ebpfcat.SyncGroup",
+                  ["update_devices"], "devices must read and write the "
+                  "shared array directly; a private copy that is written "
+                  "back later overwrites what the other process stored in "
+                  "the meantime")
+    from . import c08
+    chk.doc("R08.1", "array map: single source of layout (shared with C08)")
+    chk.doc("R08.2", "array map: reservation = access size (shared with C08)")
+    chk.doc("R08.3", "array map: one slot per visible variable (shared)")
+    c08.layout(chk, repo)
+    c08.dedup(chk, repo)
     chk.doc("R29.1", "map identity across sync-group classes")
     chk.doc("R29.2", "simulated buffer stored under the map's name; shared "
                      "memory")
